@@ -86,6 +86,9 @@ pub struct Acc {
     /// counted against per-shard violation caps
     pub known: HashSet<String>,
     known_reported: HashSet<String>,
+    /// set by a monitor whose violations are expensive to observe (a hang costs its whole
+    /// CPU limit): the shard stops after the current case
+    pub abort_shard: bool,
 }
 
 impl Acc {
@@ -263,6 +266,9 @@ pub fn run_shard(mon: &dyn Monitor, tier: Tier, seed: u64, first: u64, step: u64
         }
         ncases += 1;
         case += step;
+        if acc.abort_shard {
+            break;
+        }
     }
     acc.add("cases", ncases);
     write_shard(&acc, out, started.elapsed().as_secs_f64());
